@@ -196,11 +196,20 @@ PROGRAMS = [('p_sections', False), ('p_sections', True), ('p_name_trip', 2), ('p
 
 def replay(obname, model, result):
     if result['program'] == 'p_sections':
+        m = model or {}
+        def fl(k, d):
+            v = m.get(k)
+            if isinstance(v, dict):
+                return float(int(v['num'])) / float(int(v['den']))
+            return float(v) if v is not None else d
+        z0, b1, b2, sf = fl('z0', 100.), fl('b1', 95.), fl('b2', 88.), fl('surf', 98.5)
+        if not (b2 < b1 < sf < z0):
+            z0, b1, b2, sf = 100., 95., 88., 98.5
         return ("import os, tempfile, shutil\nimport numpy as np\nfrom mulgrids import *\n"
                 "feet = %r\n"
-                "geo = mulgrid().rectangular([10., 20.], [15.], [5., 7.], origin=[3., 4., 100.])\n"
+                "geo = mulgrid().rectangular([10., 20.], [15.], [" + repr(z0 - b1) + ", " + repr(b1 - b2) + "], origin=[3., 4., " + repr(z0) + "])\n"
                 "geo.columnlist[1].centre = np.array([22., 9.5]); geo.columnlist[1].centre_specified = 1\n"
-                "geo.columnlist[1].surface = 98.5; geo.set_column_num_layers(geo.columnlist[1]); geo.setup_block_name_index(); geo.setup_block_connection_name_index()\n"
+                "geo.columnlist[1].surface = " + repr(sf) + "; geo.set_column_num_layers(geo.columnlist[1]); geo.setup_block_name_index(); geo.setup_block_connection_name_index()\n"
                 "geo.add_well(well('w   1', [np.array([5., 5., 100.]), np.array([6., 6., 90.])]))\n"
                 "if feet: geo.unit_type = 'FEET '\n"
                 "tmp = tempfile.mkdtemp(dir='/var/tmp'); f = os.path.join(tmp, 'g.dat')\n"
